@@ -528,7 +528,18 @@ def run_impl(case, Pm, ops):
     with warnings.catch_warnings():
         warnings.simplefilter('error')
         try:
-            objs = [build(d, Pm) for d in case['operands']]
+            if case.get('alias') == 'views':
+                a, b = case['operands']
+                parent = dict(a)
+                parent['shape'] = [a['shape'][0] + 1]
+                parent['vals'] = [list(v) for v in a['vals']] + [list(b['vals'][-1])]
+                parent['mask'] = list(a['mask']) + [b['mask'][-1]]
+                if a.get('deriv') is not None:
+                    parent['deriv'] = None
+                pobj = build(parent, Pm)
+                objs = [pobj[:-1], pobj[1:]]
+            else:
+                objs = [build(d, Pm) for d in case['operands']]
         except Exception as e:      # noqa
             return {'kind': 'build-exc', 'exc': lib.exc_family(e), 'msg': str(e)[:200]}
         try:
